@@ -1,3 +1,4 @@
+import RR.Gen.ConcStatus
 import RR.Proof.Conc
 import RR.Gen.Conc
 import RR.Proof.RingRun
